@@ -15,8 +15,9 @@ func readFile(p string) ([]byte, error) { return os.ReadFile(p) }
 
 // ---------------------------------------------------------------- functions
 
-func translateFunc(u *unit, fd *ast.FuncDecl) *gendef {
-	c := &fctx{u: u, fd: fd, fresh: map[string]bool{}}
+func translateFunc(u *unit, fd *ast.FuncDecl, key string) *gendef {
+	coqName := strings.ReplaceAll(key, ".", "_")
+	c := &fctx{u: u, fd: fd, fresh: map[string]bool{}, elemWrites: map[string]int{}}
 	if fd.Type.TypeParams != nil {
 		fail(fd, "generic function")
 	}
@@ -26,7 +27,16 @@ func translateFunc(u *unit, fd *ast.FuncDecl) *gendef {
 	sig := &fsig{}
 	e := newEnv(nil)
 	var binders []string
-	for _, f := range fd.Type.Params.List {
+	var plist []*ast.Field
+	if fd.Recv != nil { // a value receiver is the first parameter
+		if len(fd.Recv.List) != 1 || len(fd.Recv.List[0].Names) != 1 {
+			fail(fd, "receiver must be one named value")
+		}
+		plist = append(plist, fd.Recv.List[0])
+	}
+	plist = append(plist, fd.Type.Params.List...)
+	for fi, f := range plist {
+		isRecv := fd.Recv != nil && fi == 0
 		if _, ok := f.Type.(*ast.Ellipsis); ok {
 			fail(f, "variadic parameter")
 		}
@@ -38,7 +48,9 @@ func translateFunc(u *unit, fd *ast.FuncDecl) *gendef {
 			fail(f, "unnamed parameter")
 		}
 		for _, n := range f.Names {
-			sig.params = append(sig.params, t)
+			if !isRecv {
+				sig.params = append(sig.params, t)
+			}
 			if n.Name == "_" {
 				fail(n, "blank parameter")
 			}
@@ -95,7 +107,7 @@ func translateFunc(u *unit, fd *ast.FuncDecl) *gendef {
 		fail(fd, "a function without error result must have exactly one result")
 	}
 	c.sig = sig
-	u.sigs[fd.Name.Name] = sig
+	u.sigs[key] = sig
 
 	body := c.seq(fd.Body.List, e, func(ind string) string {
 		fail(fd, "control reaches the end of the function without a return")
@@ -117,8 +129,8 @@ func translateFunc(u *unit, fd *ast.FuncDecl) *gendef {
 	} else if len(rt) > 1 {
 		resT = "(" + strings.Join(rt, " * ") + ")"
 	}
-	text := fmt.Sprintf("Definition %s %s : res %s :=\n%s%s.", fd.Name.Name, strings.Join(binders, " "), resT, lines(pre, "  "), body)
-	return &gendef{name: fd.Name.Name, text: text, params: binders}
+	text := fmt.Sprintf("Definition %s %s : res %s :=\n%s%s.", coqName, strings.Join(binders, " "), resT, lines(pre, "  "), body)
+	return &gendef{name: coqName, text: text, params: binders}
 }
 
 func lines(pre []string, ind string) string {
@@ -461,7 +473,13 @@ func (c *fctx) rangeStmt(s *ast.RangeStmt, e *env, ind string) string {
 	c.noOk++
 	c.inLoop++
 	before := copySet(c.fresh)
+	xpath := pathOf(s.X)
+	writesBefore := c.elemWrites[xpath]
 	body := c.seq(s.Body.List, newEnv(scope), func(ind string) string { return ind + ph }, ind+"    ")
+	if vname != "_" && xpath != "" && c.elemWrites[xpath] != writesBefore {
+		// Go reads the element for the value variable at each iteration, for_range walks the initial list
+		fail(s, "the loop assigns elements of %s while ranging over it with a value variable", xpath)
+	}
 	if len(c.fresh) != len(before) {
 		fail(s, "a slice made in this function is copied inside the loop")
 	}
@@ -708,6 +726,7 @@ func (c *fctx) store(l ast.Expr, v val, define bool, e *env) {
 			if !c.fresh[p] {
 				fail(pe.node, "assignment through slice %s, which was not made with make() in this function (or has been copied since): the write could be visible through another name", p)
 			}
+			c.elemWrites[p]++
 			break
 		}
 		p += "." + pe.field
@@ -814,6 +833,10 @@ func (c *fctx) ret(s *ast.ReturnStmt, e *env, ind string) string {
 	var out []val
 	pre := c.capture(func() {
 		for i, x := range vals {
+			if id, ok := x.(*ast.Ident); ok && id.Name == "nil" && e.lookup("nil") == nil && !success &&
+				(c.sig.results[i].k == kView || c.sig.results[i].k == kSectorPtr) {
+				continue // nil slice / pointer next to an error
+			}
 			v := c.expr(x, e, c.sig.results[i])
 			if !v.ty.same(c.sig.results[i]) {
 				fail(x, "returned %s, expected %s", v.ty, c.sig.results[i])
